@@ -54,7 +54,9 @@ class Parser(ABC):
                 self.token_list.append(
                     (line_number, line, self._pattern_line.parseString(line))
                 )
-            except pp.ParseException:
+            except (pp.ParseException, KeyError):
+                # KeyError: pyparsing's caseless oneOf matches letters whose upper-case form
+                # is an ASCII letter (e.g. 'ſ', 'ı') but cannot map them back to a mnemonic
                 raise ParserSyntaxException(line_number=line_number, line=line)
 
     def _segment(self) -> None:
